@@ -57,8 +57,28 @@ def unmarshalCerts : Nat → Bytes → Option (List Bytes)
     | none => none
 
 /-- `sessionState.unmarshal`: `some` of the fields it stored when it returns true, `none` when it returns
-    false -/
+    false.  After the certificate count has been read the code refuses (`if len(data) < 4*numCerts { return
+    false }`) before `make([][]byte, numCerts)`: every entry has at least its 4-byte length prefix. -/
 def unmarshal (data : Bytes) : Option SState :=
+  if data.length < 8 then none else
+  let vers := get16 (data.getD 0 0) (data.getD 1 0)
+  let suite := get16 (data.getD 2 0) (data.getD 3 0)
+  let masterSecretLen := get16 (data.getD 4 0) (data.getD 5 0)
+  let data := data.drop 6
+  if data.length < masterSecretLen then none else
+  let master := data.take masterSecretLen
+  let data := data.drop masterSecretLen
+  if data.length < 2 then none else
+  let numCerts := get16 (data.getD 0 0) (data.getD 1 0)
+  let data := data.drop 2
+  if data.length < 4 * numCerts then none else
+  match unmarshalCerts numCerts data with
+  | some cs => some ⟨vers, suite, master, cs⟩
+  | none => none
+
+/-- the decoder as it was before the repair (no check between reading the count and `make`): kept to state
+    that the repair changes no verdict and no parsed field (`Props.C16Codec.unmarshal_accepts_same`) -/
+def unmarshalOld (data : Bytes) : Option SState :=
   if data.length < 8 then none else
   let vers := get16 (data.getD 0 0) (data.getD 1 0)
   let suite := get16 (data.getD 2 0) (data.getD 3 0)
@@ -73,6 +93,44 @@ def unmarshal (data : Bytes) : Option SState :=
   match unmarshalCerts numCerts data with
   | some cs => some ⟨vers, suite, master, cs⟩
   | none => none
+
+/-- what `unmarshal` has in hand when it reaches `make([][]byte, numCerts)`: the certificate count and the
+    bytes that remain behind it; `none` when it returned false before (same path as `unmarshal`) -/
+def allocPoint (data : Bytes) : Option (Nat × Bytes) :=
+  if data.length < 8 then none else
+  let masterSecretLen := get16 (data.getD 4 0) (data.getD 5 0)
+  let data := data.drop 6
+  if data.length < masterSecretLen then none else
+  let data := data.drop masterSecretLen
+  if data.length < 2 then none else
+  let numCerts := get16 (data.getD 0 0) (data.getD 1 0)
+  let data := data.drop 2
+  if data.length < 4 * numCerts then none else
+  some (numCerts, data)
+
+/-- the same for the decoder before the repair: it reached `make` with any count -/
+def allocPointOld (data : Bytes) : Option (Nat × Bytes) :=
+  if data.length < 8 then none else
+  let masterSecretLen := get16 (data.getD 4 0) (data.getD 5 0)
+  let data := data.drop 6
+  if data.length < masterSecretLen then none else
+  let data := data.drop masterSecretLen
+  if data.length < 2 then none else
+  let numCerts := get16 (data.getD 0 0) (data.getD 1 0)
+  let data := data.drop 2
+  some (numCerts, data)
+
+/-- number of slots of the table `s.certificates` after the call (`len(s.certificates)`, whatever the
+    verdict): the count when `make` was reached, 0 (nil) otherwise -/
+def allocSlots (data : Bytes) : Nat :=
+  match allocPoint data with
+  | some (n, _) => n
+  | none => 0
+
+def allocSlotsOld (data : Bytes) : Nat :=
+  match allocPointOld data with
+  | some (n, _) => n
+  | none => 0
 
 /-- the states `marshal` writes without truncating anything: what the Go types guarantee for `vers` and
     `cipherSuite` (uint16) plus the length bounds of the 2- and 4-byte length fields -/
